@@ -58,6 +58,23 @@ def check(run, tier, seed, replay=None, only=None):
         core.validate_trace(run, "Trace_PlanCache.tla", pre + [case], "replay", restart=lambda r: True)
         return
 
+    # unbounded complement to TLC's bounded model: the list+map cache invariant is INDUCTIVE (Apalache, integer keys, any
+    # history length, Cap 1..4), every step is the definitional LRU step, and a cache that evicts one access late is refuted
+    spec = os.path.join(core.SPEC, "apalache", "LruInd.tla")
+    bad = run.path("LruBad.tla")
+    open(bad, "w").write(open(spec).read().replace("MODULE LruInd", "MODULE LruBad")
+                         .replace("IF Cardinality(m1) > Cap\n", "IF Cardinality(m1) > Cap + 1\n"))
+    apa = core.parallel([lambda: core.apalache(spec, "IndInv", init="Init", length=0, cinit="CInit"),
+                         lambda: core.apalache(spec, "IndInv", init="IndInit", cinit="CInit"),
+                         lambda: core.apalache(spec, "StepIsTouch", init="IndInit", cinit="CInit"),
+                         lambda: core.apalache(spec, "FrontIsLast", init="IndInit", cinit="CInit"),
+                         lambda: core.apalache(bad, "IndInv", init="IndInit", cinit="CInit")])
+    run.extra["apalache_inductive"] = {"Init=>IndInv": apa[0], "IndInv/\\Next=>IndInv'": apa[1], "StepIsTouch": apa[2],
+                                       "FrontIsLast": apa[3], "late-eviction variant (must be violated)": apa[4]}
+    if apa[:4] != ["ok"] * 4:
+        run.violation({"e": "Apalache", "results": apa}, "the LRU invariant is not inductive for the list+map model: %s" % apa)
+    if apa[4] != "violated":
+        raise core.InfraError("vacuity guard: Apalache must refute the late-eviction cache, got %s" % apa[4])
     mcjobs = [mc("MC_PlanCache_quick.cfg"), mc("MC_PlanCache_cap1.cfg")]
     if not quick:
         mcjobs += [mc("MC_PlanCache.cfg"), mc("MC_PlanCache_cap4.cfg")]
